@@ -8,6 +8,7 @@
   * `unsigned pos` and `uint32_t` arithmetic wrap modulo 2^32 explicitly (`u32`, `usub`).
   * Loops run on fuel; exhaustion (`none`) means the real loop does not stop within
     `fuel` rounds.  `Ring.fuel` (total size + 2) is enough whenever `pos` does not wrap.
+  * Mirrors the code after fixes C07-blob-len, C07-bundle-len, C07-empty-string-size.
 -/
 import RtoscModel.Osc.Read
 namespace Rtosc.Osc
@@ -54,39 +55,48 @@ def tagsFrom (r : Ring) : Nat → Nat → Option Bytes
 def Ring.rd32 (r : Ring) (pos : Nat) : UInt32 :=
   get32 (r.deref pos) (r.deref (u32 (pos + 1))) (r.deref (u32 (pos + 2))) (r.deref (u32 (pos + 3)))
 
-/-- the `while(toparse)` loop of `rtosc_message_ring_length`; `tags` are the bytes
-    `deref(arguments++)` will deliver. -/
+/-- the `while(toparse)` loop of `rtosc_message_ring_length` *and* the final
+    `return pos <= total ? pos : 0`; `tags` are the bytes `deref(arguments++)` will deliver.
+    After fixes C07-blob-len / C07-empty-string-size: the loop returns 0 as soon as `pos` has
+    left the ring or a blob does not fit into the remaining bytes (so `pos` cannot wrap), and a
+    string is measured from its first byte (`while(deref(pos,ring)) ++pos;`). -/
 def lenLoop (r : Ring) (aligned : Nat) : Nat → Bytes → Nat → Option Nat
-  | 0, _, pos => some pos
-  | _ + 1, [], _ => none
+  | 0, _, pos => some (if pos ≤ r.total then pos else 0)
+  | _ + 1, [], pos => if pos > r.total then some 0 else none
   | tp + 1, t :: ts, pos =>
-    if t = 104 ∨ t = 116 ∨ t = 100 then lenLoop r aligned tp ts (u32 (pos + 8))
+    if pos > r.total then some 0                            -- if(pos > total) return 0;
+    else if t = 104 ∨ t = 116 ∨ t = 100 then lenLoop r aligned tp ts (u32 (pos + 8))
     else if t = 109 ∨ t = 114 ∨ t = 99 ∨ t = 102 ∨ t = 105 then
       lenLoop r aligned tp ts (u32 (pos + 4))
     else if t = 83 ∨ t = 115 then
-      match scanNul r r.fuel (u32 (pos + 1)) with          -- while(deref(++pos,ring));
+      match scanNul r r.fuel pos with                        -- while(deref(pos,ring)) ++pos;
       | none => none
       | some p => lenLoop r aligned tp ts (u32 (p + (4 - usub p aligned % 4)))
     else if t = 98 then
       let i := (r.rd32 pos).toNat
       let pos := u32 (pos + 4)
-      let pos := u32 (pos + i)
-      let pos := if usub pos aligned % 4 ≠ 0 then u32 (pos + (4 - usub pos aligned % 4)) else pos
-      lenLoop r aligned tp ts pos
+      if pos > r.total ∨ i > r.total - pos then some 0       -- the blob has to fit
+      else
+        let pos := u32 (pos + i)
+        let pos := if usub pos aligned % 4 ≠ 0 then u32 (pos + (4 - usub pos aligned % 4)) else pos
+        lenLoop r aligned tp ts pos
     else lenLoop r aligned (tp + 1) ts pos
 
-/-- the `do … while(advance)` loop of `bundle_ring_length` -/
+/-- the `do … while(advance)` loop of `bundle_ring_length` and its final
+    `return pos <= total ? pos : 0` (after fix C07-bundle-len: 0 as soon as `pos` has left the
+    ring or an element does not fit into the remaining bytes) -/
 def bundleLoop (r : Ring) : Nat → Nat → Option Nat
   | 0, _ => none
   | f + 1, pos =>
-    let advance := (r.rd32 pos).toNat
-    if advance ≠ 0 then bundleLoop r f (u32 (pos + u32 (4 + advance))) else some pos
+    if pos > r.total then some 0
+    else
+      let advance := (r.rd32 pos).toNat
+      if advance > r.total - pos then some 0
+      else if advance ≠ 0 then bundleLoop r f (u32 (pos + u32 (4 + advance)))
+      else some (if pos ≤ r.total then pos else 0)
 
 /-- `bundle_ring_length` (rtosc.c:551) -/
-def bundleRingLength (r : Ring) : Option Nat :=
-  match bundleLoop r r.fuel 16 with
-  | none => none
-  | some pos => some (if pos ≤ r.total then pos else 0)
+def bundleRingLength (r : Ring) : Option Nat := bundleLoop r r.fuel 16
 
 def bundleMagic : Bytes := [35, 98, 117, 110, 100, 108, 101, 0]    -- "#bundle\0"
 
@@ -109,9 +119,7 @@ def ringLength (r : Ring) : Option Nat :=
           match tagsFrom r r.fuel arguments with
           | none => none
           | some tags =>
-            match lenLoop r aligned (nreserved tags) tags pos with
-            | none => none
-            | some pos => some (if pos ≤ r.total then pos else 0)
+            lenLoop r aligned (nreserved tags) tags pos
 
 /-- `rtosc_message_length(msg, len)`; `m` is the block of `len` bytes at `msg`. -/
 def messageLength (m : Bytes) : Option Nat := ringLength ⟨m, []⟩
